@@ -414,9 +414,16 @@ def fmt_result(R):
     if R['k'] == 'OK': return 'accepted (%d statements)' % len(R['edges'])
     return '%s %s' % (R['k'], R['cls'][:80])
 
-def compare_lines(V, scn, files, A, B):
+def compare_lines(V, scn, files, A, B, F=None):
     """both rejected with a parse error of the same class in the same file: where does the diagnostic point?"""
     if A['line'] == B['line']: return 'same'
+    if F is not None and A['cls'] == 'unknown_pool' and A['line'] > B['line'] and \
+       any(pool_mentions_out(F, b) for b in builds_at(F, files, B['file'], B['line'], True)):
+        # listed quirk Q5: the statement the documented rules reject (its rule's pool variable reaches $out) gets the default
+        # pool in the implementation, which goes on and meets ANOTHER unknown pool further down
+        V.q('pool-var-resolved-before-outputs', scn, '%s: the documented rules reject the statement on line %d (pool via $out), the implementation accepts it and stops at line %d'
+            % (hx(A['file']), B['line'], A['line']))
+        return 'other-statement'
     text = files.get(B['file'], b'')
     end, nxt = statement_extent(text, B['line'])
     if B['line'] <= A['line'] <= end: return 'inside'
@@ -562,7 +569,7 @@ def _run(ctx, impl, mrun):
                 if A['file'] == '-' or A['line'] < 1:
                     V.v('reject-without-location', scn, 'rejected without file:line: %s' % a[:200])
                 elif B['k'] == 'ERR' and A['file'] == B['file'] and A['cls'] == B['cls']:
-                    linecheck[compare_lines(V, scn, scenario_files(scn), A, B)] += 1
+                    linecheck[compare_lines(V, scn, scenario_files(scn), A, B, F)] += 1
                 else: linecheck['different defect named'] += 1
             else: stats['rejected_fatal_' + A['cls']] += 1
         d = (sum(len(x) for x in V.quirk.values()) - nq, len(V.viol) - nv, sum(V.choice.values()) - nc)
